@@ -130,6 +130,10 @@ def f(a, b=None):
 class K:
     def m(self, opts):
         return None
+def gen(n):
+    yield n
+def ret(n):
+    return n
 '''
 CLI_CFG = '''
 import contextlib
@@ -222,6 +226,14 @@ def cli_cases(ctx, rnd):
                     if wrap == "opt":
                         traces.append(CallTrace(fn, {pname: type(None)}, type(None)))
                     shapes.append((fn.__qualname__, sorted(keys), wrap))
+            # dicts in the YIELD and RETURN positions too (one shape per function when recorded under a larger limit)
+            for fn, pos in ((fx.gen, "yield"), (fx.ret, "return")):
+                for _ in range(rnd.choice([1, 2])):
+                    nk = rnd.randrange(1, rec_k + 1) if rec_k != k else (rnd.choice([1, k, k + 1]) if k > 0 else rnd.randrange(1, 4))
+                    keys = rnd.sample(["a", "b", "c", "d"], max(1, min(4, nk)))
+                    ty = get_type({kk: rnd.choice(atoms) for kk in keys}, rec_k)
+                    traces.append(CallTrace(fn, {"n": int}, type(None), ty) if pos == "yield" else CallTrace(fn, {"n": int}, ty))
+                    shapes.append((fn.__qualname__ + ":" + pos, sorted(keys), "plain"))
             SQLiteStore.make_store(db).add(traces)
             so, se = io.StringIO(), io.StringIO()
             try:
@@ -300,7 +312,7 @@ def run(ctx):
     from monkeytype.typing import get_type, shrink_types
     n2 = 300 if ctx.tier == "quick" else 4000
     m2cases, m2terms = [], []
-    atoms = [1, "x", None, 2.5, [1], {"q": 1}]
+    atoms = [1, "x", None, 2.5, [1], {"q": 1}, {"q": 1, "r": "s", "t": None}, {"q": {"u": 1, "v": 2}}]
     for _ in range(n2):
         k1 = rnd.choice([1, 2, 3, 10])
         k2 = rnd.choice([x for x in (0, 1, 2, 3) if x < k1])
@@ -311,6 +323,15 @@ def run(ctx):
             ks = base if same else rnd.sample(KEYS[:5], rnd.randrange(1, min(k1, 4) + 1))
             fixed = rnd.choice(atoms)
             vs.append({kk: (fixed if same else rnd.choice(atoms)) for kk in ks})
+        if rnd.random() < 0.25:
+            # directed: a dict within the limit in force whose field holds a dict beyond it (one call, or several calls of
+            # which one has the field) -- the merge has to recurse into a field seen with a single value type
+            k1, k2 = 10, rnd.choice([1, 2, 3])
+            big = {kk: rnd.choice([1, "x", None]) for kk in rnd.sample(KEYS[5:], rnd.randrange(k2 + 1, 6))}
+            ks = rnd.sample(KEYS[:5], rnd.randrange(1, k2 + 1))
+            vs = [{kk: (big if j == 0 else 1) for j, kk in enumerate(ks)}]
+            if len(ks) > 1 and rnd.random() < 0.4:
+                vs.append({kk: 1 for kk in ks[1:]})
         if rnd.random() < 0.2:
             vs.append(rnd.choice([1, None, [], {1: 2}]))
         if rnd.random() < 0.3:
